@@ -78,7 +78,38 @@ def parseOp? (fs : List String) : Option Op :=
   | ["restoreraw", b, f] => do pure (.restoreRaw (← b.toNat?) (← parseBool? f))
   | _ => none
 
+/-- split the item fields of a batch line into groups of `k` -/
+def chunks (k : Nat) : Nat → List String → Option (List (List String))
+  | 0, [] => some []
+  | 0, _ => none
+  | n + 1, fs => if fs.length < k then none else (chunks k n (fs.drop k)).map (fs.take k :: ·)
+
+def showBatch : Except String (List Out) → String
+  | .error c => s!"err:{c}"
+  | .ok os => "|".intercalate (os.map showOut)
+
+/-- `benc n (ver ctx aad plain)*`, `bdec n (h vmut bmut ctx aad)*`, `brewrap n (h ver ctx)*` -/
+def parseBatch? (fs : List String) : Option (List Op) :=
+  match fs with
+  | "benc" :: n :: rest => do
+      let gs ← chunks 4 (← n.toNat?) rest
+      gs.mapM fun g => match g with
+        | [v, c, a, p] => parseOp? ["enc", v, c, a, "-", p]
+        | _ => none
+  | "bdec" :: n :: rest => do
+      let gs ← chunks 5 (← n.toNat?) rest
+      gs.mapM fun g => parseOp? ("dec" :: g)
+  | "brewrap" :: n :: rest => do
+      let gs ← chunks 3 (← n.toNat?) rest
+      gs.mapM fun g => parseOp? ("rewrap" :: g)
+  | _ => none
+
 def stepLine (st : St) (fs : List String) : St × String :=
+  match parseBatch? fs with
+  | some items =>
+    let (st', r) := batch st items
+    (st', showBatch r)
+  | none =>
   match parseOp? fs with
   | none => (st, "bad-op")
   | some op =>
